@@ -71,9 +71,10 @@ def mon_c01(rec):
             v, msg = json.loads(c["arg"])
             if c["ret"] != str(v) or c["err"] != msg:
                 out.append("call tag %d (FailVal %s) returned (%s, %r): not its own handler's result" % (c["tag"], c["arg"], c["ret"], c["err"]))
-        elif c["m"] == "Sub.Deep.Ping":
-            if c["ret"] != str(c["tag"] + 2000) or c["err"] != "":
-                out.append("call tag %d (Sub.Deep.Ping) returned (%s, %r)" % (c["tag"], c["ret"], c["err"]))
+        elif c["m"] in ("Sub.Deep.Ping", "Sub.Ping", "After"):
+            off = {"Sub.Deep.Ping": 2000, "Sub.Ping": 1000, "After": 3000}[c["m"]]
+            if c["ret"] != str(c["tag"] + off) or c["err"] != "":
+                out.append("call tag %d (%s) returned (%s, %r): not the result of that function" % (c["tag"], c["m"], c["ret"], c["err"]))
     return out
 
 
@@ -100,10 +101,24 @@ def mon_c09(rec):
     for n in rec.get("notes") or []:
         out.append(n)
     for c in rec["calls"] or []:
+        if c["m"] in ("FailVal", "PartialStruct"):
+            # a value that accompanies an error arrives as well as the error
+            if c["err"] != c.get("extra"):
+                out.append("%s tag %d: the handler returned the error %r, the caller got %r" % (c["m"], c["tag"], c.get("extra"), c["err"]))
+            if c["ret"] != c["oracle"]:
+                out.append("%s tag %d: the handler returned the value %s together with an error, the caller got %s" % (c["m"], c["tag"], c["oracle"][:120], c["ret"][:120]))
+            continue
         if c["err"] != "":
             out.append("call %s tag %d (%s) failed: %r" % (c["m"], c["tag"], c["arg"][:80], c["err"]))
             continue
         if c["m"] == "Zero":
+            continue
+        if c["m"] == "EchoNamed":
+            got = invs.get(c["tag"], [])
+            if len(got) != 1 or got[0]["data"] != c["oracle"]:
+                out.append("EchoNamed tag %d: handler received %s, a direct encode/decode into the declared named types gives %s" % (c["tag"], [g["data"] for g in got], c["oracle"]))
+            if c["ret"] != c.get("extra"):
+                out.append("EchoNamed tag %d: caller got %s, expected %s" % (c["tag"], c["ret"], c.get("extra")))
             continue
         got = invs.get(c["tag"], [])
         if len(got) != 1:
@@ -169,6 +184,20 @@ def mon_c11(rec):
             runs = c.get("extra", "").split("|") if c.get("extra") else []
             if sorted(runs) != expected_runs(n):
                 out.append("Iter tag %d (n=%d): the caller's function ran with %s, expected %s" % (c["tag"], n, sorted(runs)[:6], expected_runs(n)[:6]))
+        elif c["m"] == "Two":
+            if c["err"] != "" or c["ret"] != "10/,20/;11/,21/;12/,22/":
+                out.append("Two closures in one call: the callee's invocations of (f, g) returned %r (error %r), expected '10/,20/;11/,21/;12/,22/' (each callable must reach its own function)" % (c["ret"], c["err"]))
+            if c.get("extra") != "f0|g0|f1|g1|f2|g2":
+                out.append("Two closures in one call: the caller's functions ran as %r, expected f0|g0|f1|g1|f2|g2" % c.get("extra"))
+        elif c["m"] == "IterNamed":
+            want_runs = '[0,"",0,0]|[3,"nm",0.5,-4]|[1099511627776,"ü\\"q",-1.25,127]'
+            if c["err"] != "" or c["ret"] != "0:0/;1:5/;2:1099511627780/":
+                out.append("closure with named-type parameters: the callee's invocations returned %r (error %r), expected '0:0/;1:5/;2:1099511627780/'" % (c["ret"], c["err"]))
+            elif c.get("extra") != want_runs:
+                out.append("closure with named-type parameters ran with %r, expected %r" % (c.get("extra"), want_runs))
+        elif c["m"] == "IterCount":
+            if c["err"] != "" or c["ret"] != "0:0/;1:10/;2:8589934594/":
+                out.append("closure with named integer parameters: the callee's invocations returned %r (error %r), expected '0:0/;1:10/;2:8589934594/'" % (c["ret"], c["err"]))
         elif c["m"] == "CbFirstUnencodable":
             if c["err"] == "":
                 out.append("a call with an unencodable argument returned a nil error")
@@ -278,8 +307,13 @@ def mon_c17(rec):
         out.append(n)
     if rec["family"] == "foreign":
         want = {901: ("c1", 5, ""), 902: ("c2", "hi", ""), 903: ("c3", None, ""), 904: ("c4", None, "nope"), 905: ("c5", 2905, ""),
-                906: ("c6", 3, ""), 911: ("s1", 6, ""), 912: ("s2", "x", ""), 913: ("s3", None, "")}
+                906: ("c6", 3, ""), 907: ("c7", 0, ""), 908: ("c8", "", ""), 911: ("s1", 6, ""), 912: ("s2", "x", ""), 913: ("s3", None, ""),
+                915: ("s5", 7, ""), 917: ("s7", 0, "")}
         for c in rec["foreign"] or []:
+            if c.get("extra") == "none-expected":
+                if c["ret"]:
+                    out.append("a stream envelope carrying only a response for an unknown call (%s) made the registry emit %s: an envelope carries exactly one of request and response, nothing of an earlier frame may be handled again" % (c["arg"].strip()[:70], c["ret"][:200]))
+                continue
             if c["err"]:
                 out.append("foreign frame (%s) %s was not answered: %s" % (c["m"], c["arg"].strip()[:80], c["err"]))
                 continue
@@ -322,7 +356,8 @@ def mon_c17(rec):
     byfn = collections.defaultdict(list)
     for d in reqs.values():
         byfn[d["function"]].append(d)
-    arity = {"Delayed": 2, "Zero": 0, "EchoInt": 2, "Fail": 2, "FailVal": 3, "Multi": 8, "Iter": 3, "Sub.Deep.Ping": 1, "EchoPtr": 2, "CallClosure": 2}
+    arity = {"Delayed": 2, "Zero": 0, "EchoInt": 2, "Fail": 2, "FailVal": 3, "Multi": 8, "Iter": 3, "Sub.Deep.Ping": 1, "EchoPtr": 2, "CallClosure": 2,
+             "EchoStr": 2, "EchoStruct": 2}
     for fn, ds in byfn.items():
         if fn not in arity:
             out.append("request names function %r which no call used" % fn)
@@ -355,8 +390,78 @@ def mon_c17(rec):
                 out.append("response to FailVal(%r, %r): err=%r value=%r" % (args[1], args[2], r["err"], r["value"]))
         if fn == "Zero" and (r["err"] != "" or r["value"] != {"$decoded": None}):
             out.append("response to Zero: err=%r value=%r" % (r["err"], r["value"]))
-        if fn == "EchoInt" and (r["err"] != "" or r["value"] != {"$decoded": args[1]}):
-            out.append("response to EchoInt(%r): err=%r value=%r" % (args[1], r["err"], r["value"]))
+        if fn in ("EchoInt", "EchoStr", "EchoStruct") and (r["err"] != "" or r["value"] != {"$decoded": args[1]}):
+            out.append("response to %s(%r): err=%r value=%r (the value must be the validly encoded return value; a zero value is a value, not null)" % (fn, args[1], r["err"], r["value"]))
+    return out
+
+
+def mon_linkend(rec, pid="C03"):
+    """family linkend: a read fails with a sentinel error / a response write is stuck, then the link ends"""
+    out = []
+    for n in rec.get("notes") or []:
+        out.append("%s: %s" % (rec["config"], n))
+    if rec.get("hang"):
+        out.append("%s: the scenario did not finish" % rec["config"])
+    for c in rec["calls"] or []:
+        m = c["m"]
+        if m == "InFlightAtEnd":
+            if not c.get("done"):
+                out.append("the call in flight when the link ended never returned (%s)" % c.get("extra"))
+            elif c["err"] == "":
+                out.append("the call in flight when the link ended returned a nil error without a response (%s)" % c.get("extra"))
+        elif m == "LinkReturn" and c["ret"] != "returned":
+            out.append("Link did not return after its transport failed / its context was cancelled (%s)" % c.get("extra"))
+        elif m == "LaterCall":
+            if c["err"] == "":
+                out.append("a call made after the link ended returned a nil error (%s)" % c.get("extra"))
+            elif "took true" in (c.get("extra") or ""):
+                out.append("a call made after the link ended did not fail at once (%s)" % c.get("extra"))
+        elif m == "CallWhileWriteStuck" and (c["err"] != "" or c["ret"] != "9"):
+            out.append("while an unrelated response write was stuck in the transport, an independent call returned (%s, %r) (%s)" % (c["ret"], c["err"], rec["config"]))
+    return out
+
+
+def mon_enumrace(rec):
+    """family enumrace (C14): nothing is enumerated after its disconnect notification"""
+    out = []
+    for n in rec.get("notes") or []:
+        out.append(n)
+    gone = set()
+    for e in rec.get("events") or []:
+        if e["node"] != "H":
+            continue
+        if e["kind"] == "hook" and e["m"] == "disconnect":
+            gone.add(e["remote"])
+        elif e["kind"] == "enum" and e["remote"] in gone:
+            out.append("remote %s was handed to the enumeration callback after its disconnect notification (a link ended while the enumeration was under way)" % e["remote"])
+    return out
+
+
+def mon_c04_sys(rec):
+    """black-box cancellation scenarios (family cancel)"""
+    out = []
+    for n in rec.get("notes") or []:
+        out.append(n)
+    if rec.get("hang"):
+        out.append("cancellation workload hangs")
+    for c in rec["calls"] or []:
+        m = c["m"]
+        if m == "CancelledWithClosure":
+            if c["err"] != "context canceled" or c["ret"] != "0":
+                out.append("a closure-carrying call whose context was cancelled while its handler waited returned (%s, %r), expected (0, 'context canceled')" % (c["ret"], c["err"]))
+        elif m == "StaleInvoke":
+            if c.get("extra") != "false":
+                out.append("the closure of a cancelled call ran although its call had already returned")
+        elif m in ("Probe", "ProbeClosure"):
+            want = "42" if m == "Probe" else "p/"
+            if c["err"] != "" or c["ret"] != want:
+                out.append("the link is not healthy %s: a later %s call from %s returned (%s, %r)" % (c.get("extra"), "closure-carrying" if m == "ProbeClosure" else "plain", c["from"], c["ret"], c["err"]))
+        elif m == "IterCtx":
+            if c["err"] != "" or c["ret"] != "0/context canceled;2/":
+                out.append("a closure invocation whose own context was cancelled while the closure ran, then a second invocation: the handler observed %r (error %r), expected '0/context canceled;2/'" % (c["ret"], c["err"]))
+    for e in rec.get("events") or []:
+        if e["kind"] == "ret" and e["m"] == "Delayed" and e["tag"] == 700 and "closure does not exist" not in e.get("err", ""):
+            out.append("invoking the closure of a cancelled call yielded (%s, %r), expected a 'closure does not exist' error" % (e.get("data"), e.get("err")))
     return out
 
 
@@ -377,6 +482,8 @@ def transcript(rec):
             evs["inv|%s|%s|%d|%s" % (e["node"], e["m"], e["tag"], e.get("data", "") if rec["family"] != "values" else "")] += 1
         elif e["kind"] == "hook":
             evs["hook|%s|%s" % (e["node"], e["m"])] += 1
+        elif e["kind"] == "ctxerr":
+            evs["handler-context-after-the-link-ended|%s|%s" % (e["node"], e.get("data"))] += 1
     return sorted(lines), dict(evs), ()
 
 
@@ -396,7 +503,7 @@ def check_c08(res, tier, seed, wd, binary):
         for r in rs:
             nconf.add(r["config"])
             # per-config own monitor first (a config that misbehaves on its own)
-            mon = {"values": mon_c09, "errors": mon_c10, "closures": mon_c11}[fam]
+            mon = {"values": mon_c09, "errors": mon_c10, "closures": mon_c11}.get(fam, lambda r: [])
             t = transcript(r)
             if fam == "values":
                 # values are compared after each serializer's own round trip: compare only outcome shapes
